@@ -831,6 +831,161 @@ def _param_text_ok(sm, roles, b, pidx, s0, s1, agg_bb):
     return None
 
 
+# ----------------------------------------------------------------------------- BOOLWORD
+BOOL_WORDS = ('true', 'True', 'false', 'False')
+
+
+def _excluded_words(prog, b, target_bb, text_op, depth=0):
+    """the constant words w for which a comparison `text == w` is known false at target_bb (the false edge of the
+    comparison's switch dominates it); for a text handed in as a parameter, also what every call site excludes"""
+    from facts import op_const_str
+    from r_prec import bool_source_truth
+    text_os = {(o.kind, o.key()[1], o.proj) for o in trace_operand(b, text_op, through_calls=THROUGH)}
+    out = set()
+    for sb in sorted(b.live_blocks):
+        t = b.blocks[sb]['term']
+        if t['k'] != 'switch':
+            continue
+        src = bool_source(b, t['discr'])
+        if src is None:
+            continue
+        tc, parity = src
+        if re.search(r'<impl \[.*\]>::contains$', tc.callee or '') and len(tc.args) == 2:
+            # `TRUE_ATOMS.contains(&word)` on a constant array of words: on the false edge the word is none of them
+            words = _const_str_array(b, tc.args[0])
+            if words and {(o.kind, o.key()[1], o.proj) for o in trace_operand(b, tc.args[1], through_calls=THROUGH)} == text_os:
+                tv = bool_source_truth(b, sb, target_bb)
+                if tv == 0:
+                    out |= set(words)
+            continue
+        if (tc.callee or '') not in ('std::cmp::PartialEq::eq', 'std::cmp::PartialEq::ne') or len(tc.args) != 2:
+            continue
+        word, other = None, None
+        for k in (0, 1):
+            sv = op_const_str(tc.args[k])
+            if sv is None:
+                o = single_origin(trace_operand(b, tc.args[k], through_calls=set()))
+                sv = op_const_str(o.data) if o is not None and o.kind == 'const' and not o.proj and isinstance(o.data, dict) else None
+            if sv is not None:
+                word, other = sv, tc.args[1 - k]
+        if word is None or other is None:
+            continue
+        if {(o.kind, o.key()[1], o.proj) for o in trace_operand(b, other, through_calls=THROUGH)} != text_os:
+            continue
+        tv = bool_source_truth(b, sb, target_bb)
+        if tv is None:
+            continue
+        equal = tv if tc.callee.endswith('::eq') else 1 - tv
+        if equal == 0:
+            out.add(word)
+    so = single_origin(trace_operand(b, text_op, through_calls=THROUGH))
+    if so is not None and so.kind == 'param' and not so.proj and not b.is_closure and depth < 3:
+        oid = getattr(b, 'orig_id', b.id)
+        sites = [c for cid in prog.callers.get(oid, ()) for c in prog.edge_sites.get((cid, oid), [])]
+        if sites:
+            common = None
+            for c in sites:
+                if so.data - 1 >= len(c.args):
+                    common = set(); break
+                ex = _excluded_words(prog, c.body, c.bb, c.args[so.data - 1], depth + 1)
+                if not all(w in ex for w in BOOL_WORDS) and not getattr(c.body, 'is_view', False):
+                    # the caller read with pure word classifiers opened (`match bool_literal(word) { None => self.name_token(word, ..) }`);
+                    # the blocks of the original body keep their numbers in a view
+                    v = prog.view(c.body, keep=_boolword_keep(prog), tag='boolword')
+                    if v is not c.body and c.bb < len(v.blocks) and v.blocks[c.bb]['term']['k'] == 'call':
+                        vc = v.call_at(c.bb)
+                        if vc is not None and vc.ruid == c.ruid and so.data - 1 < len(vc.args):
+                            ex |= _excluded_words(prog, v, c.bb, vc.args[so.data - 1], depth + 1)
+                common = ex if common is None else (common & ex)
+            out |= (common or set())
+    elif so is not None and so.kind == 'param' and so.data == 1 and b.is_closure and len(so.proj) >= 1 and so.proj[0][0] == 'f' and depth < 3:
+        # the word was captured by a closure (`self.peek().map(|peek| if peek.is_open_paren() { Function(atom, ..) } ..)`):
+        # what is known where the closure is built
+        k = so.proj[0][1]
+        sites = prog.closure_sites.get(getattr(b, 'orig_id', b.id), [])
+        common = None
+        for (pb, pbb, pi) in sites:
+            agg = pb.blocks[pbb]['stmts'][pi]['rv']
+            if k >= len(agg['ops']):
+                common = set(); break
+            ex = _excluded_words(prog, pb, pbb, agg['ops'][k], depth + 1)
+            common = ex if common is None else (common & ex)
+        out |= (common or set())
+    return out
+
+
+def _boolword_keep(prog):
+    def keep(g):
+        pure = not g.is_closure and not prog._publicly_reachable(g) and g.arg_count >= 1 and 'str' in g.locals[1]['ty'] \
+            and not any(g.locals[k]['ty'].startswith('&mut ') for k in range(1, g.arg_count + 1)) and g.locals[0]['ty'] != '()'
+        return not pure
+    return keep
+
+
+def _const_str_array(b, op):
+    """the strings of a constant array operand (`const TRUE_ATOMS: [&str; 2] = ["True", "true"]`, possibly promoted / unsized), or None"""
+    from facts import op_const_str
+    o = single_origin(trace_operand(b, op, through_calls=set()))
+    rv = None
+    if o is not None and o.kind == 'const' and not o.proj and isinstance(o.data, dict) and o.data.get('uneval_uid'):
+        cb = b.facts.by_id.get(o.data['uneval_uid'])
+        if cb is not None:
+            asg = [x for x in cb.assigns() if x[2]['l'] == 0 and not x[2]['p']]
+            if len(asg) == 1:
+                rv = asg[0][3]
+                b = cb
+    elif o is not None and o.kind == 'agg' and not o.proj:
+        rv = o.data[2]
+    if rv is None or rv.get('k') != 'agg' or rv.get('agg') != 'array':
+        return None
+    words = []
+    for e in rv['ops']:
+        sv = op_const_str(e)
+        if sv is None:
+            return None
+        words.append(sv)
+    return words
+
+
+def rule_boolword(roles):
+    first = _rule_boolword(roles, roles.token_bodies())
+    if not any(o.status == 'violated' for o in first):
+        return first
+    # second reading: pure word classifiers (`keyword::bool_literal(word) -> Option<bool>`) opened
+    prog = roles.prog
+    second = _rule_boolword(roles, [prog.view(b, keep=_boolword_keep(prog), tag='boolword') for b in roles.token_bodies()])
+    from engine import covers
+    nv = lambda obs: len([o for o in obs if o.status == 'violated'])
+    if covers(first, second) and nv(second) < nv(first):
+        for o in second:
+            o.what += ' [read with word classifiers inlined]'
+        return second
+    return first
+
+
+def _rule_boolword(roles, bodies):
+    """`true` / `True` / `false` / `False` are boolean literals whatever follows them: a Function or Reference token is
+    built for a scanned word only where the word is known to be none of the four (the false edges of the comparisons
+    dominate the construction, in the builder itself or at every call site that hands the word in)"""
+    prog = roles.prog
+    obs = []
+    n = 0
+    for b in bodies:
+        for bb, i, pl, rv in b.assigns():
+            if not (rv['k'] == 'agg' and rv.get('adt') == roles.token_adt and rv.get('variant') in ('Function', 'Reference') and len(rv['ops']) == 2):
+                continue
+            n += 1
+            key = 'BOOLWORD|%s|%s|#%d' % (b.name, rv['variant'], len([o for o in obs if o.key.startswith('BOOLWORD|%s|%s|' % (b.name, rv['variant']))]))
+            ex = _excluded_words(prog, b, bb, rv['ops'][0])
+            missing = [w for w in BOOL_WORDS if w not in ex]
+            if missing:
+                obs.append(bad('BOOLWORD', key, 'a %s token can be built for the word%s %s: a boolean literal followed by `(` (or in that position) is classified as a name' % (rv['variant'], 's' if len(missing) > 1 else '', ', '.join(missing)), b.where(bb), body=b.name, bb=bb))
+            else:
+                obs.append(ok('BOOLWORD', key, 'a %s token is built only for a word that compared unequal to true / True / false / False' % rv['variant'], b.where(bb)))
+    obs.append(floor('BOOLWORD', 'name-token-sites', n, 2, 'Function and Reference tokens are built somewhere'))
+    return obs
+
+
 # ----------------------------------------------------------------------------- CHARUNITS
 COUNT_STEPS = ('std::iter::Iterator::nth', 'std::iter::Iterator::skip', 'std::iter::Iterator::advance_by', 'std::iter::Iterator::take',
                'std::iter::Iterator::step_by', 'std::iter::Iterator::nth_back')
